@@ -124,7 +124,7 @@ var (
 	gcNext  int
 	GCFired int64
 
-	Events    [MaxEvents][5]int64 // step, site, from, to, kind
+	Events    [MaxEvents][6]int64 // step, site, from, to, kind, steps until the next scheduled preemption (-1: none)
 	NEvents   int
 	EventHash uint64
 
@@ -354,7 +354,11 @@ func wakeMain() {
 //go:norace
 func event(site, from, to, kind int) {
 	if NEvents < MaxEvents {
-		Events[NEvents] = [5]int64{Steps, int64(site), int64(from), int64(to), int64(kind)}
+		cd := countdown
+		if cd >= Inf/2 {
+			cd = -1
+		}
+		Events[NEvents] = [6]int64{Steps, int64(site), int64(from), int64(to), int64(kind), cd}
 		NEvents++
 	}
 	h := EventHash
@@ -607,10 +611,13 @@ func Y(site int) {
 	t := &tasks[me]
 	t.state = stRunnable
 	t.opSteps++
-	if t.opSteps > t.opLimit {
+	// an exhausted budget aborts the operation at the END of this yield point:
+	// the step must count towards the pending preemption like any other, or a
+	// replay (whose tape measures distances in steps) would drift by one
+	over := t.opSteps > t.opLimit
+	if over {
 		t.opSteps = 0
 		BudgetAborts++
-		panic(BudgetExceeded{})
 	}
 	if gcNext < nGC && Steps >= gcAt[gcNext] {
 		gcNext++
@@ -632,16 +639,18 @@ func Y(site int) {
 		}
 	}
 	countdown--
-	if countdown > 0 {
-		return
+	if countdown <= 0 {
+		if mode == ModePCT && !replay && pctNext < pctN && pctAt[pctNext] <= Steps {
+			// priority change point: the running task drops below everyone
+			t.prio = pctLow
+			pctLow--
+		}
+		next := decide(me, KPreempt, site)
+		handTo(me, next, site, KPreempt)
 	}
-	if mode == ModePCT && !replay && pctNext < pctN && pctAt[pctNext] <= Steps {
-		// priority change point: the running task drops below everyone
-		t.prio = pctLow
-		pctLow--
+	if over {
+		panic(BudgetExceeded{})
 	}
-	next := decide(me, KPreempt, site)
-	handTo(me, next, site, KPreempt)
 }
 
 // Progress is called by zzsimsync when a primitive was acquired.
